@@ -6,6 +6,7 @@ import FurikoModel.Driver.ConfigD
 import FurikoModel.Driver.OptionsD
 import FurikoModel.Driver.IndexesD
 import FurikoModel.Driver.JcStatusD
+import FurikoModel.Driver.TaskfnD
 open Furiko Furiko.Driver
 
 structure DState where
@@ -16,6 +17,7 @@ structure DState where
   config : ConfigDS := {}
   idx : IdxDS := {}
   jcstatus : JcDS := {}
+  taskfn : TaskfnDS := {}
 
 def step (s : DState) (line : String) : DState × String :=
   let t := toks line
@@ -44,6 +46,9 @@ def step (s : DState) (line : String) : DState × String :=
     else if op.startsWith "jcstatus." then
       let (c, o) := jcStatusStep s.jcstatus t
       ({ s with jcstatus := c }, o)
+    else if op.startsWith "taskfn." then
+      let (c, o) := taskfnStep s.taskfn t
+      ({ s with taskfn := c }, o)
     else (s, "bad-op")
 
 partial def loop (hin : IO.FS.Stream) (hout : IO.FS.Stream) (s : DState) : IO Unit := do
